@@ -143,4 +143,23 @@ theorem digits_head_zero (b : Nat) (hb : 2 ≤ b) (n : Nat) (x : Nat) (xs : List
   have := (digits_canonical b hb n).no_leading_zero (by rw [h, hx]; rfl)
   rw [h] at this; exact (by simpa using this : x = 0 ∧ xs = []).2
 
+/-- a number below `b^k` has at most `k` digits -/
+theorem digits_length_le (b : Nat) (hb : 2 ≤ b) : ∀ (k n : Nat), 0 < k → n < b ^ k → (digits b n).length ≤ k := by
+  intro k
+  induction k with
+  | zero => intro n h; omega
+  | succ k ih =>
+    intro n _ hn
+    by_cases h : n < b
+    · rw [digits_small b n (Or.inl h)]; simp
+    · rw [digits_step b n hb (by omega)]
+      have hk : 0 < k := by
+        rcases Nat.eq_zero_or_pos k with h0 | h0
+        · subst h0; simp at hn; omega
+        · exact h0
+      have : n / b < b ^ k := by
+        rw [Nat.div_lt_iff_lt_mul (by omega)]; rw [Nat.pow_succ] at hn; exact hn
+      have := ih (n / b) hk this
+      simp; omega
+
 end StVerif.Lemmas.Digits
